@@ -1223,9 +1223,12 @@ def _evaluate(res, prop, config, req, out, hooks):
                 ("C04", "C08", "C10"), "unexpected_exception",
                 (config, type(out.exc).__name__),
                 "entry point failed with %r" % (out.exc,)))
-            if req.op.kind == "mutation" and any(
-                    len(p) == 1 and k in ("err", "errx", "errs")
-                    for p, k in req.faults.items()):
+            from py_gql.exc import ResolverError as _RE
+            if req.op.kind == "mutation" and (any(
+                    len(p) == 1 and k in ("err", "errx", "errs", "errpp",
+                                          "generr")
+                    for p, k in req.faults.items())
+                    or isinstance(out.exc, _RE)):
                 V.append(Violation(
                     ("C09",), "serial_continue", (config, "aborted"),
                     "a root field failing with a resolver error aborted the "
